@@ -30,16 +30,16 @@ class C19(Prop):
     title = 'The yldpc command line equals the library; debug options only add comments'
     technique = 'differential + metamorphic property-based testing (Hypothesis): command line (click runner in-process, real subprocess for a sample) vs. library, all 16 debug-flag combinations enumerated per case'
     rule = ('1-3 sources (random programs whose quoted atoms often contain newlines, carriage returns, other line '
-            'separators, non-ASCII text; some sources malformed at a known line; some refused by the compiler; some not ending in a line break) x ALL 16 '
+            'separators, non-ASCII text; some sources malformed at a known line - in the middle of it or at its first character; one case in six names a file twice; some refused by the compiler; some not ending in a line break) x ALL 16 '
             'combinations of -d --debug-parser --debug-generator --debug-filename x output to stdout or -o file (fresh, or an older longer output file already present) x each '
             'source as a file or as "-" (standard input, UTF-8 bytes). Oracles: compile_prolog_from_file of each source file equals compile_prolog_from_string of its text; with no flags the output equals the '
             'concatenation of compile_prolog_from_string of each source in order; for every flag combination the output '
             'with lines starting with # removed equals that (comment-stripped) and is parsable Python; exit status 0 iff '
             'every source compiles; for a syntax error the message names the file ("-" for standard input) and the line '
-            'of the first error. 1 in 12 cases (and every failing one) is repeated through a real "python -m '
+            'and then the column of the first error (as the library exception carries them). 1 in 12 cases (and every failing one) is repeated through a real "python -m '
             'yldprolog.compiler" subprocess with real pipes. Non-trivial = a source has a newline-like or non-ASCII '
             'character inside a quoted atom, or >= 2 sources, or standard input; distinct = SHA-1 of the sources + modes.')
-    assumptions = ['CPython 3.12 of /venv, click 8.5 test runner', 'the error message format is not prescribed beyond containing file name and line']
+    assumptions = ['CPython 3.12 of /venv, click 8.5 test runner', 'the error message format is not prescribed beyond: the file name, then the line and the column of the library exception as the next two numbers']
     cases = {'quick': 200, 'thorough': 3000}
     genome = {'quick': 400, 'thorough': 400}
     shards = {'quick': 8, 'thorough': 16}
@@ -62,7 +62,8 @@ class C19(Prop):
             errline = None
             if k == 7:
                 errline = text.count('\n') + 1
-                text += 'oops( .\nafter(a).\n'
+                # the offending token in the middle of a line, or as the very first character of one (column 0)
+                text += src.pick(['oops( .\n', 'oops( .\n', ') oops.\n', '$ x.\n', 'b c.\n', '. b.\n', '] .\n', '   , x.\n']) + 'after(a).\n'
                 mode = 'syntax-error'
             elif k == 6:
                 text += "'bad head'(a).\n"
@@ -94,6 +95,10 @@ class C19(Prop):
             sources.append({'text': text, 'mode': mode, 'errline': errline, 'stdin': False})
         if src.n(3) == 2:
             sources[src.n(n)]['stdin'] = True
+        if src.n(6) == 0:
+            # one of the files is named twice on the command line: its code is written twice, in the order given
+            j = src.n(n)
+            sources.insert(j + 1 + src.n(len(sources) - j), dict(sources[j], stdin=False, same_file_as=j))
         return {'sources': sources, 'outfile': src.n(2) == 1, 'subprocess': src.n(12) == 11, 'stale_outfile': src.n(3)}
 
     def case_key(self, case):
@@ -153,6 +158,11 @@ class C19(Prop):
         stdin_bytes = None
         libs = []
         for i, s in enumerate(sources):
+            j = s.get('same_file_as')
+            if j is not None and j < len(args) and args[j] != '-':
+                args.append(args[j])
+                libs.append(libs[j])
+                continue
             if s['stdin'] and stdin_bytes is None:
                 args.append('-')
                 stdin_bytes = s['text'].encode('utf8')
@@ -219,7 +229,15 @@ class C19(Prop):
                         want = '%s:%d:' % (args[first_bad], s['errline'])
                         if want not in err and want not in (out or ''):
                             return FAIL('syntax-error-message-lacks-file-and-line', dict(d, wanted_substring=want))
-                        classes.add('syntax-error-reported')
+                        # ... and the position: the line and the column the library's exception carries follow the file name
+                        exc = libs[first_bad][1]
+                        import re
+                        where = err + '\n' + (out or '')
+                        idx = where.find(args[first_bad] + ':')
+                        nums = re.findall(r'\d+', where[idx + len(args[first_bad]): idx + len(args[first_bad]) + 60]) if idx >= 0 else []
+                        if nums[:2] != [str(exc.line), str(exc.column)]:
+                            return FAIL('syntax-error-message-lacks-the-position', dict(d, wanted_line=exc.line, wanted_column=exc.column))
+                        classes.add('syntax-error-reported' + ('-at-column-0' if exc.column == 0 else ''))
             if use_sub:
                 classes.add('via-subprocess')
         text_all = ''.join(s['text'] for s in sources)
@@ -229,6 +247,8 @@ class C19(Prop):
             classes.add('newline-or-non-ascii-inside-quoted-atom')
         if len(sources) >= 2:
             classes.add('>=2-sources')
+        if len(set(args)) < len(args):
+            classes.add('a-file-named-twice')
         if stdin_bytes is not None:
             classes.add('stdin')
         classes.add('outfile' if case['outfile'] else 'stdout')
